@@ -44,6 +44,16 @@ fn configs() -> Vec<Cfg> {
         ])
         .strict(false),
     );
+    // empty content: replace("") / set_inner_content("") still remove, before("") etc. are no-ops
+    v.push(
+        Cfg::with(vec![
+            HSpec { end_tag_ops: Some(vec![Op::Replace("".into(), true)]), ..HSpec::with_ops(HKind::Element, "a", vec![Op::Before("".into(), true), Op::SetInner("".into(), false), Op::After("".into(), false)]) },
+            HSpec::with_ops(HKind::DocComments, "", vec![Op::Replace("X".into(), true), Op::Replace("".into(), true)]),
+            HSpec { last_only: true, ..HSpec::with_ops(HKind::DocText, "", vec![Op::Replace("".into(), false)]) },
+            HSpec::with_ops(HKind::Element, "b", vec![Op::Replace("".into(), true)]),
+        ])
+        .strict(false),
+    );
     v.push(Cfg { esi: true, ..Cfg::with(vec![HSpec::obs(HKind::Element, "*")]) });
     // the ESI entry point with strict off (its two trailing booleans must not be confused)
     v.push(Cfg { esi: true, ..Cfg::with(vec![HSpec::obs(HKind::Element, "*"), HSpec::obs(HKind::DocText, "")]).strict(false) });
